@@ -2,6 +2,7 @@ package ring
 
 import (
 	"encoding/binary"
+	"io"
 	"math"
 	"math/big"
 
@@ -76,7 +77,7 @@ func (g *GaussianSampler) read(pol Poly, f func(a, b, c uint64) uint64) {
 
 	level := r.level
 
-	if _, err := g.prng.Read(g.randomBufferN); err != nil {
+	if _, err := io.ReadFull(g.prng, g.randomBufferN); err != nil {
 		// Sanity check, this error should not happen.
 		panic(err)
 	}
@@ -211,7 +212,7 @@ func (g *GaussianSampler) normFloat64() (float64, uint64) {
 
 	read := func() {
 		if ptr == buffLen {
-			if _, err := prng.Read(buff); err != nil {
+			if _, err := io.ReadFull(prng, buff); err != nil {
 				// Sanity check, this error should not happen.
 				panic(err)
 			}
